@@ -15,7 +15,9 @@ from vf import report
 from vf.world import World, Hang
 
 PID = "C06"
-LINES = ["", "a", "a b", " lead", "-", "-x", "12", "123", "1234", "250", "250 x", "250-x", "251 y", "é", "日本", "x;y=z"]
+LINES = ["", "a", "a b", " lead", "-", "-x", "12", "123", "1234", "250", "250 x", "250-x", "251 y", "é", "日本", "x;y=z",
+         # characters that str.splitlines() treats as line boundaries but the wire format does not
+         "a\x0cb", "a\x0bb", "a\x1db", "a\x85b", "a\u2028b", "a\rb"]
 REDUCED = ["", "a", " lead", "-x", "250 x", "250-x", "251 y", "é"]
 CODES12 = ["100", "150", "200", "211", "226", "250", "257", "331", "421", "451", "500", "550"]
 
